@@ -360,7 +360,7 @@ PROPS = {
     "C12": {
         "pf": True,
         "n": {"quick": 240, "thorough": 8000},
-        "cone": ["Bytes", "Regex", "Generated", "Channel", "Network", "ChanTrace", "ChanTraceLemmas", "InteractiveLemmas", "Replay", "DecideLang", "GeneratedSkel", "ChannelSrc"],
+        "cone": ["Bytes", "Regex", "Generated", "Channel", "Network", "ChanTrace", "ChanTraceLemmas", "InteractiveLemmas", "Replay", "DecideLang", "GeneratedSkel", "ChannelSrc", "DecideLoops", "InteractiveSrcDefs", "InteractiveSrc", "InteractiveSrcModel", "InteractiveTie"],
         "rx": True,
         "rule": "SendInteractive dialogues (1-5 events, visible/hidden, with/without expected response, completion patterns) against a scripted "
                 "device whose reactions become readable only after a delay (0 / 0.3 / 1.5 ms) so that typing ahead is observable (bytes delivered "
